@@ -83,8 +83,8 @@ PROPS["C10"] = {
     "cone": r"^MISMATCH (json|json-fuel|harness|driver)",
     "data_obligations": ["Tables.queries = Spec queries (nine RFC 7946 names, HAR and glTF deciding members)", "children of json are geojson, har, gltf in this order"],
     "rule": "objects with 0-6 sibling members (scalars, empty and non-empty arrays, nested objects re-using type/log/asset/version, look-alike keys) x a deciding member at every position (nine geo names, three HAR members, glTF versions) / near-misses / two deciders of different families x four layouts x limits {0, len+1, right after the deciding member, right after a later member}; judged by the extracted independent member splitter subtype_spec; non-trivial = result other than plain application/json",
-    "proved": "the full statement on the model, whole mode: for every query table, scanning any value of the RFC 8259 grammar within the recursion cap succeeds, leaves the key-path stack balanced (C10_path_balanced, the D2 invariant, for every input) and sets querySatisfied to the value's query-hit status, an attribute over the grammar that is a disjunction over members / elements (C10_query_equation; status total and functional); instances for the three regenerated tables on an object given as an arbitrary member list: GeoJSON iff a top-level type member is one of the nine names, HAR iff a top-level log member is an object with a version/creator/entries member, glTF iff a top-level asset member is an object whose version member is 1.0 or 2.0; child order geojson, har, gltf under json",
-    "not_proved": "truncated mode (the deciding member inside a cut header) is decided on the implementation by subtype_spec at limits right after the deciding member; that the Go scanner is the modelled scanner (json / c10 correspondence); keys and values with escape sequences are compared literally (as the property states)",
+    "proved": "the full statement on the model, whole mode: for every query table, scanning any value of the RFC 8259 grammar within the recursion cap succeeds, leaves the key-path stack balanced (C10_path_balanced, the D2 invariant, for every input) and sets querySatisfied to the value's query-hit status, an attribute over the grammar that is a disjunction over members / elements (C10_query_equation; status total and functional); instances for the three regenerated tables on an object given as an arbitrary member list: GeoJSON iff a top-level type member is one of the nine names, HAR iff a top-level log member is an object with a version/creator/entries member, glTF iff a top-level asset member is an object whose version member is 1.0 or 2.0; child order geojson, har, gltf under json; truncated mode (C10_truncated): a header cut anywhere behind the value of a top-level member whose status is a hit is still accepted, whatever members precede it (querySatisfied is never reset: C10_flag_monotone; every byte of the cut is inspected: scan_online)",
+    "not_proved": "that the Go scanner is the modelled scanner (json / c10 correspondence); keys and values with escape sequences are compared literally (as the property states)",
     "assumptions": JSON_ASSUME,
 }
 PROPS["C11"] = {
